@@ -16,6 +16,9 @@ result = [per op: {outcome, trace, nsver, diff, nsend}]
    trace   = the commands the machine executed during the op, in order (a retransmission whose request
              arrived is executed again), sver excluded: [x, y, p, cmd, a1, a2, a3, data hex, rc, reply hex]
    diff    = every byte of the machine that differs from its initial value after the op
+   fills   = word fills of more than 64 KiB, kept as intervals [x, y, base, nbytes, hex of the 4 bytes] (diff lists
+             only what lies outside them or was stored into them later)
+   refused = return codes with which the machine refused commands of this op without executing them (fault plan)
    max_tx  = the largest number of times one and the same datagram was transmitted during the op
  case["discover"]: mc.discover_connections() runs first (case["eth"] = [[x, y, k], ...] Ethernet chips with IP
    10.11.12.k; the boot chip's memory holds p2p_dims and the P2P table); the fault plan starts after it.
@@ -199,6 +202,7 @@ def run_case(c):
             lo = len(machine.log)
             ntx = net.ntx
             llo = len(net.log)
+            rlo = len(machine.refused)
             try:
                 v = run_op(mc, op, x, y, c["buffer"], c["window"])
                 outcome = ["ok", jsonable(v)]
@@ -214,7 +218,8 @@ def run_case(c):
                 if e[0] == "send":
                     sends[e[2]] = sends.get(e[2], 0) + 1
             results.append(dict(outcome=outcome, trace=trace, max_tx=max(sends.values()) if sends else 0,
-                                discovered=results_pre, nsock=len(net.sockets),
+                                discovered=results_pre, nsock=len(net.sockets), refused=machine.refused[rlo:],
+                                fills=machine.mem.big_fills(),
                                 nsver=sum(1 for e in entries if e["cmd"] == sim.CMD_VER),
                                 diff=machine.mem.diff(), nsend=net.ntx - ntx,
                                 ports=sorted(set(e["port"] for e in entries))))
